@@ -60,7 +60,7 @@ ASSUMPTIONS = [
     'arguments validated by value, not by type - INTEGER that does not evaluate to a Python int, invalid REGEX, '
     'FILE-NAME of a file list that is empty / absolute / contains ".." / ":" / ";" - are outside the property: for '
     'programs that contain one the check accepts VALIDATION_ERROR as well as acceptance (and HARD_ERROR when the '
-    'invalid REGEX contains a sandbox path, which cannot be known before the sandbox exists)',
+    'invalid REGEX contains a path of the sandbox or of the home directory: such a REGEX is compiled at execution)',
     'values whose semantics are outside the property (filter transformers, OS_PATH_SEP, arguments '
     'appended to a shell command line) are not predicted (replace / strip / char-case are: the REGEX and the '
     'replacement are strings with references); observations that depend on them are skipped (label '
@@ -585,7 +585,7 @@ SUBS = [
     Sub('matrix', check, enumerate=c08_gen.matrix_cases, exhaustive=True, render=render_case),
     Sub('scope', check, enumerate=c08_gen.scope_cases, exhaustive=True, render=render_case),
     Sub('values', check, enumerate=c08_gen.values_cases, exhaustive=True, render=render_case),
-    Sub('programs', check, strategy=lambda tier: _programs(tier), budget={'quick': 4000, 'thorough': 120000},
+    Sub('programs', check, strategy=lambda tier: _programs(tier), budget={'quick': 4000, 'thorough': 160000},
         render=render_case),
     Sub('symbol_cmd_scope', check_symbol_cmd, enumerate=c08_gen.scope_cases, exhaustive=True, render=render_case),
     Sub('symbol_cmd', check_symbol_cmd, strategy=lambda tier: _programs(tier),
